@@ -179,8 +179,12 @@ func (k Keeper) UpdateClient(
 	k.SetClientState(ctx, chainName, newClientState)
 
 	// set new consensus state regardless of if update is valid update
-	var consensusHeight = header.GetHeight()
-	k.SetClientConsensusState(ctx, chainName, header.GetHeight(), newConsensusState)
+	// headers of clients that have no heights (TSS) return a nil height: fall back to the client's latest height
+	consensusHeight := header.GetHeight()
+	if consensusHeight == nil {
+		consensusHeight = newClientState.GetLatestHeight()
+	}
+	k.SetClientConsensusState(ctx, chainName, consensusHeight, newConsensusState)
 	k.Logger(ctx).Info(
 		"client state updated",
 		"chain-name", chainName,
